@@ -678,7 +678,7 @@ class LinearOperator(object):
                     shape,
                     dtype=self.dtype,
                     device=self.device,
-                    fill_value=(1.0 / math.sqrt(self.size(-2))),
+                    fill_value=(1.0 / math.sqrt(roots.size(-1))),
                 )
                 roots = torch.cat([roots, extra_root], dim)
                 num_batch += 1
